@@ -234,3 +234,60 @@ def c16_scenarios(S, exe, fmts, rate, rng, cuts):
             S.add("file 2 copy 1", "file 2 trunc %d" % c, "open 1 vio r 2 0 0 0", "read 1 s f 5", "close 1")
         for c in cuts[::4]:
             S.add("file 2 copy 1", "file 2 trunc %d" % c, "open 1 fd r 2 0 0 0", "close 1", "open 1 path r 2 0 0 0", "close 1")
+
+
+def c15_workloads(fmt, ch, rate):
+    T = gen_core.type_for(fmt)
+    B = scen.block_hint(fmt, ch, rate)
+    N = 2 * B + 5 if B > 1 else 70
+    ofmt = fmt if scen.major(fmt) == scen.RAW else 0
+    prep = ["file 1 new", "open 0 vio w 1 %d %d %d" % (fmt, ch, rate), "write 0 %s f %d gen noise 7 0" % (T, N), "close 0"]
+    wl = {
+        "w": (["file 1 new"], ["open 0 vio w 1 %d %d %d" % (fmt, ch, rate), "write 0 %s f %d gen noise 7 0" % (T, B + 3), "write 0 %s f %d gen noise 8 0" % (T, N - B - 3),
+                                 "cmd 0 UPDATE_HEADER_NOW 0", "write 0 %s i %d gen noise 9 0" % (T, 2 * ch), "close 0"]),
+        "r": (prep, ["open 0 vio r 1 %d %d %d" % (ofmt, ch, rate), "read 0 %s f 10" % T, "seek 0 %d 0" % (N // 2), "read 0 %s f %d" % (T, B + 3), "seek 0 0 0",
+                     "read 0 %s i %d" % (T, (N + 4) * ch), "seek 0 -1 2", "read 0 %s f 2" % T, "close 0"]),
+    }
+    if scen.is_granular(fmt):
+        wl["rw"] = (prep, ["open 0 vio rw 1 %d %d %d" % (fmt, ch, rate), "write 0 %s f 3 gen noise 4 0" % T, "seek 0 0 16", "read 0 %s f 5" % T, "seek 0 2 33", "write 0 %s f 2 gen noise 5 0" % T, "close 0"])
+    return wl
+
+
+KINDS = ["zero", "short", "seekfail", "lenbig", "lensmall"]
+
+
+def c15_calibrate(exe, fmts, rate):
+    """fault-free run of every workload: number of I/O callbacks K between arming and the end"""
+    S = scen.Script()
+    keys = []
+    for fmt, ch in fmts:
+        for name, (prep, ops) in c15_workloads(fmt, ch, rate).items():
+            S.scn(fmt="0x%x" % fmt, ch=ch, kind="cal", wl=name)
+            S.add(*prep)
+            S.add("fault 0")
+            S.add(*ops)
+            keys.append((fmt, ch, name))
+    d = os.path.join(vlib.ROOT, "out", "C15")
+    os.makedirs(d, exist_ok=True)
+    sp, ep = os.path.join(d, "cal.script"), os.path.join(d, "cal.ndjson")
+    open(sp, "w").write("\n".join(S.lines) + "\n")
+    vlib.run_driver(exe, sp, ep)
+    K, i = {}, -1
+    for ln in open(ep):
+        e = json.loads(ln)
+        if e["op"] == "reset":
+            i += 1
+        elif e["op"] == "end":
+            K[keys[i]] = e["io"]
+    return K
+
+
+def c15_scenarios(S, fmt, ch, rate, name, K, step=1, kinds=KINDS, stickies=(0, 1)):
+    prep, ops = c15_workloads(fmt, ch, rate)[name]
+    for i in range(1, K + 1, step):
+        for kind in kinds:
+            for st in stickies:
+                S.scn(fmt="0x%x" % fmt, ch=ch, kind="c15", wl=name, at=i, fk=kind, sticky=st)
+                S.add(*prep)
+                S.add("fault %d %s %d" % (i, kind, st))
+                S.add(*ops)
